@@ -71,7 +71,8 @@ def cmdWelfareILP (a : Args) : String :=
     let ask := wilpOracleOf a
     (match resolute (ask 0) I score init with
      | .ok l => "ok out=" ++ wilpShowAllocs [l]
-     | .error e => "err " ++ e.toString) ++ " progs=" ++ wilpShowPrograms [baseProgram I score init]
+     | .error e => "err " ++ e.toString) ++ " progs=" ++
+      wilpShowPrograms (if (freeVars I init).isEmpty then [] else [baseProgram I score init])
   | _ =>
     let I := parseInst a
     let P := parseProfile a
